@@ -65,6 +65,22 @@ enum Op {
     RemovePolicy { id: u32, p: u8 },
     /// seeds only: let ledgers pass (rules may expire; the registry must keep listing them)
     Advance(u32),
+    /// no call at all: on a rebuilt copy of the state 600000 ledgers pass without any invocation
+    /// (beyond the lifetime of every temporary entry and of every TTL extension the library
+    /// performs); every getter must still answer what the model says (the registry lists rules
+    /// whatever their `valid_until`), and the first admissible `add_context_rule` of the alphabet
+    /// must then behave as in an ordinary step (in particular: a new, never issued id)
+    IdleProbe,
+}
+
+/// ledgers that pass in an idle probe (largest TTL extension of the library: 518400; persistent
+/// TTL of `envx::mk_env`: 3000000)
+const IDLE: u32 = 600_000;
+
+/// A disagreement found after the idle period: nothing was called in between, so whatever differs
+/// from the model was lost (or appeared) through the passage of time alone.
+fn idle_viol(v: Violation) -> Violation {
+    Violation::new("state-survives-idle", format!("after {IDLE} ledgers without any call [{}] {}", v.oracle, v.detail))
 }
 
 #[derive(Clone, Debug, PartialEq, Eq, Hash)]
@@ -185,7 +201,28 @@ impl Acct {
                 envx::advance(e, *k);
                 Ok(().into_val(e))
             }
+            Op::IdleProbe => Err(vh::auth::CallErr::Other("idle probe: no call".into())),
         }
+    }
+
+    /// The idle probe (see `Op::IdleProbe`) on a throw-away copy of the state.
+    fn idle_probe(&self, copy: &mut AInst, m: &AModel, cx: &mut StepCtx<Self>) -> Result<(), Violation> {
+        envx::advance(&copy.e, IDLE);
+        let mut n = 0u64;
+        self.observe(copy, m, &mut n).map_err(idle_viol)?;
+        cx.stats.count("acct.getter-comparisons-after-long-idle", n);
+        // the id counter and the fingerprint set: one admissible addition, judged by the oracles
+        // of an ordinary step; its statistics are kept apart from the vacuity counters
+        let adds: Vec<Op> = self.adds.iter().map(|(ctx, s, p)| Op::AddRule { ctx: *ctx, signers: s.clone(), policies: p.clone(), valid: None }).collect();
+        if let Some(op) = adds.iter().find(|op| self.expect(m, op).is_ok()) {
+            let mut m2 = m.clone();
+            let mut own = vh::engine::Stats::default();
+            let mut cx2 = StepCtx { world: self, seed: cx.seed, hist: cx.hist, stats: &mut own };
+            self.step(copy, &mut m2, op, &mut cx2).map_err(idle_viol)?;
+            cx.stats.count("acct.additions-after-long-idle", 1);
+        }
+        cx.stats.count("idle-probes", 1);
+        Ok(())
     }
 
     /// What the set / map semantics of the property statement say about `op` in model state `m`:
@@ -219,7 +256,7 @@ impl Acct {
                 Ok(())
             }
             Op::RemoveRule(id) | Op::Rename { id, .. } | Op::SetValid { id, .. } => absent(id).map(|_| ()),
-            Op::Advance(_) => Ok(()),
+            Op::Advance(_) | Op::IdleProbe => Ok(()),
             Op::AddSigner { id, s } => {
                 let r = absent(id)?;
                 if r.signers.contains(s) {
@@ -353,7 +390,7 @@ impl Acct {
                     r.policies.remove(p);
                 }
             }
-            Op::Advance(_) => {}
+            Op::Advance(_) | Op::IdleProbe => {}
         }
     }
 
@@ -530,6 +567,7 @@ impl World for Acct {
                 v.push(Op::RemovePolicy { id: *id, p: *p });
             }
         }
+        v.push(Op::IdleProbe);
         v
     }
 
@@ -544,6 +582,7 @@ impl World for Acct {
             Op::AddPolicy { .. } => "acct.add_policy",
             Op::RemovePolicy { .. } => "acct.remove_policy",
             Op::Advance(_) => "acct.advance",
+            Op::IdleProbe => "idle-probe",
         }
         .into()
     }
@@ -559,6 +598,11 @@ impl World for Acct {
     fn step(&self, i: &mut AInst, m: &mut AModel, op: &Op, cx: &mut StepCtx<Self>) -> Result<bool, Violation> {
         if let Some(f) = &m.seed_fail {
             return Err(viol("seed-admissible-refused", f.clone()));
+        }
+        if matches!(op, Op::IdleProbe) {
+            let mut copy = cx.rebuild();
+            self.idle_probe(&mut copy, m, cx)?;
+            return Ok(false);
         }
         let expect = self.expect(m, op);
         let fills = self.fills_limit(m, op);
@@ -881,6 +925,8 @@ fn hook(k: u8) -> ComplianceHook {
 enum COp {
     Add { hook: u8, m: u8 },
     Remove { hook: u8, m: u8 },
+    /// as `Op::IdleProbe`: every getter after 600000 ledgers without any call
+    IdleProbe,
 }
 
 #[derive(Clone, Debug, Hash)]
@@ -916,6 +962,7 @@ impl Comp {
         match op {
             COp::Add { hook: h, m } => call_mocked(e, &i.c, "add_module_to", (hook(*h), i.mods[*m as usize].clone()).into_val(e)),
             COp::Remove { hook: h, m } => call_mocked(e, &i.c, "remove_module_from", (hook(*h), i.mods[*m as usize].clone()).into_val(e)),
+            COp::IdleProbe => Err(vh::auth::CallErr::Other("idle probe: no call".into())),
         }
     }
 
@@ -991,6 +1038,7 @@ impl World for Comp {
         for (h, k) in &self.alphabet {
             v.push(COp::Remove { hook: hk(*h), m: *k });
         }
+        v.push(COp::IdleProbe);
         v
     }
 
@@ -998,6 +1046,7 @@ impl World for Comp {
         match op {
             COp::Add { .. } => "comp.add_module_to",
             COp::Remove { .. } => "comp.remove_module_from",
+            COp::IdleProbe => "idle-probe",
         }
         .into()
     }
@@ -1009,6 +1058,15 @@ impl World for Comp {
     fn step(&self, i: &mut CInst, m: &mut CModel, op: &COp, cx: &mut StepCtx<Self>) -> Result<bool, Violation> {
         if let Some(f) = &m.seed_fail {
             return Err(viol("seed-admissible-refused", f.clone()));
+        }
+        if matches!(op, COp::IdleProbe) {
+            let copy = cx.rebuild();
+            envx::advance(&copy.e, IDLE);
+            let mut n = 0u64;
+            self.observe(&copy, m, &mut n).map_err(idle_viol)?;
+            cx.stats.count("comp.getter-comparisons-after-long-idle", n);
+            cx.stats.count("idle-probes", 1);
+            return Ok(false);
         }
         let (expect, fills): (Result<(), (&'static str, String)>, bool) = match op {
             COp::Add { hook: h, m: k } => {
@@ -1028,6 +1086,7 @@ impl World for Comp {
                     (Err(("absent-refused", format!("module M{k} is not registered for {:?}", hook(*h)))), false)
                 }
             }
+            COp::IdleProbe => unreachable!(),
         };
         let res = self.exec(i, op);
         let ok = res.is_ok();
@@ -1061,6 +1120,7 @@ impl World for Comp {
             COp::Remove { hook: h, m: k } => {
                 m.reg[*h as usize].remove(k);
             }
+            COp::IdleProbe => {}
         }
         let mut n = 0u64;
         self.observe(i, m, &mut n)?;
@@ -1161,6 +1221,12 @@ pub fn run(tier: Tier, r: &mut Runner) {
             "comp.refused.absent-refused",
             "comp.refused.limit-exact",
             "comp.accepted-filling-limit.modules",
+        ]);
+        rep.require_counter(&[
+            "idle-probes",
+            "acct.getter-comparisons-after-long-idle",
+            "acct.additions-after-long-idle",
+            "comp.getter-comparisons-after-long-idle",
         ]);
     }
 }
